@@ -222,6 +222,13 @@ impl Decoder for FrameDecoder {
     type Error = Error;
 
     fn decode(&mut self, src: &mut BytesMut) -> Result<Option<Self::Item>, Self::Error> {
+        // A frame whose size field is smaller than the 8 byte frame header leaves fewer than
+        // the 4 remaining header bytes here
+        if src.len() < 4 {
+            return Err(Error::DecodeError(
+                "frame is smaller than the frame header".to_string(),
+            ));
+        }
         let doff = src.get_u8();
         let ftype = src.get_u8();
         let channel = src.get_u16();
